@@ -70,57 +70,57 @@ func (d *dumper) container(schema j5schema.RootSchema, msg protoreflect.Message,
 		if isRoot && d.skipRoot[p.JSONName] {
 			continue
 		}
-		mark := d.sb.Len()
-		if !first {
-			d.sb.WriteByte(',')
-		}
-		d.sb.WriteString(p.JSONName)
-		d.sb.WriteByte('=')
-		ok, err := d.property(p, msg)
+		walk, fd, ok, err := resolve(p, msg)
 		if err != nil {
 			return err
 		}
 		if !ok {
-			// not populated: take the name back
-			s := d.sb.String()[:mark]
-			d.sb.Reset()
-			d.sb.WriteString(s)
-			continue
+			continue // not populated
+		}
+		if !first {
+			d.sb.WriteByte(',')
 		}
 		first = false
+		d.sb.WriteString(p.JSONName)
+		d.sb.WriteByte('=')
+		if err := d.property(p, walk, fd); err != nil {
+			return err
+		}
 	}
 	d.sb.WriteByte(close)
 	return nil
 }
 
-// property prints the value of p inside msg if it is populated.
-func (d *dumper) property(p *j5schema.ObjectProperty, msg protoreflect.Message) (bool, error) {
+// resolve follows the proto path of p inside msg; ok = the property is populated.
+func resolve(p *j5schema.ObjectProperty, msg protoreflect.Message) (protoreflect.Message, protoreflect.FieldDescriptor, bool, error) {
 	if len(p.ProtoField) == 0 {
-		return false, fmt.Errorf("dump: property %s without proto field (exposed oneof)", p.JSONName)
+		return nil, nil, false, fmt.Errorf("dump: property %s without proto field (exposed oneof)", p.JSONName)
 	}
 	walk := msg
 	for _, num := range p.ProtoField[:len(p.ProtoField)-1] {
 		fd := walk.Descriptor().Fields().ByNumber(num)
 		if fd == nil || fd.Kind() != protoreflect.MessageKind || fd.IsList() || fd.IsMap() {
-			return false, fmt.Errorf("dump: bad proto path for %s", p.JSONName)
+			return nil, nil, false, fmt.Errorf("dump: bad proto path for %s", p.JSONName)
 		}
 		if !walk.Has(fd) {
-			return false, nil
+			return nil, nil, false, nil
 		}
 		walk = walk.Get(fd).Message()
 	}
 	fd := walk.Descriptor().Fields().ByNumber(p.ProtoField[len(p.ProtoField)-1])
 	if fd == nil {
-		return false, fmt.Errorf("dump: bad proto path for %s", p.JSONName)
+		return nil, nil, false, fmt.Errorf("dump: bad proto path for %s", p.JSONName)
 	}
-	if !walk.Has(fd) {
-		return false, nil
-	}
+	return walk, fd, walk.Has(fd), nil
+}
+
+// property prints the value of the populated property p (walk, fd from resolve).
+func (d *dumper) property(p *j5schema.ObjectProperty, walk protoreflect.Message, fd protoreflect.FieldDescriptor) error {
 	val := walk.Get(fd)
 	switch st := p.Schema.(type) {
 	case *j5schema.ArrayField:
 		if !fd.IsList() {
-			return false, fmt.Errorf("dump: array %s is not a list", p.JSONName)
+			return fmt.Errorf("dump: array %s is not a list", p.JSONName)
 		}
 		list := val.List()
 		d.sb.WriteByte('[')
@@ -129,14 +129,14 @@ func (d *dumper) property(p *j5schema.ObjectProperty, msg protoreflect.Message) 
 				d.sb.WriteByte(',')
 			}
 			if err := d.value(st.Schema, fd, list.Get(i)); err != nil {
-				return false, err
+				return err
 			}
 		}
 		d.sb.WriteByte(']')
-		return true, nil
+		return nil
 	case *j5schema.MapField:
 		if !fd.IsMap() {
-			return false, fmt.Errorf("dump: map %s is not a map", p.JSONName)
+			return fmt.Errorf("dump: map %s is not a map", p.JSONName)
 		}
 		m := val.Map()
 		var keys []string
@@ -153,13 +153,13 @@ func (d *dumper) property(p *j5schema.ObjectProperty, msg protoreflect.Message) 
 			d.sb.WriteString(hx([]byte(k)))
 			d.sb.WriteByte(':')
 			if err := d.value(st.Schema, fd.MapValue(), m.Get(protoreflect.ValueOfString(k).MapKey())); err != nil {
-				return false, err
+				return err
 			}
 		}
 		d.sb.WriteByte(')')
-		return true, nil
+		return nil
 	}
-	return true, d.value(p.Schema, fd, val)
+	return d.value(p.Schema, fd, val)
 }
 
 func (d *dumper) value(fs j5schema.FieldSchema, fd protoreflect.FieldDescriptor, val protoreflect.Value) error {
